@@ -9,7 +9,7 @@ CFG = {
             "and every way a string ends; all 256 bytes after each prefix; text with every split into reads; short mixed streams "
             "(multi-byte text, invalid bytes, CSI/OSC/DCS/APC/SS3) with every split at every byte offset; parameters overflowing a Go int; "
             "C0 controls between the ESC and the \\ of an ST after every kind of control string (repaired F102c) and every kind of invalid byte after a character uniseg joins to what follows (repaired F102d), every split; "
-            "grammar-generated long streams and raw fuzz (incl. invalid UTF-8) with random splits; non-trivial = the model delivers something besides EOF, "
+            "grammar-generated long streams and raw fuzz (incl. invalid UTF-8) with random splits; oracles on the implementation's output: Spec machine (Prints merged), Print width, and for text streams 'a cluster is delivered in pieces only at a read boundary or in front of an invalid byte'; non-trivial = the model delivers something besides EOF, "
             "distinct by (bytes, reads)",
     "trusted_base": ["Spec/VT500.lean: transcription of the Williams VT500 table and the seven documented extensions (reviewed by hand)",
                      "Model/ParserIO.lean: transcription of utf8.DecodeRune/FullRune and of bufio's fill loop (stdlib, by reading; validated by correspondence; the decoder is characterised "
